@@ -240,7 +240,7 @@ OPS = ["next", "send", "throw", "close"]
 def BOUNDS(tier):
     if tier == "quick":
         return {"max_steps": 4, "deviations": 2, "triples": 2}
-    return {"max_steps": 6, "deviations": 3, "triples": 4}
+    return {"max_steps": 6, "deviations": 2, "triples": 4}
 
 
 def configs(tier):
